@@ -67,6 +67,8 @@ var simplifyTests = [...]simplifyTest{
 	{`"fo\$o"`, `'fo$o'`},
 	{`"fo\"o"`, `'fo"o'`},
 	{"\"fo\\`o\"", "'fo`o'"},
+	noSimple(`$"fo\\bo"`),
+	noSimple(`$"fo\$o"`),
 	noSimple(`fo"o"bar`),
 	noSimple(`foo""bar`),
 }
